@@ -23,6 +23,12 @@ def find_module(prop: str) -> str:
 
 
 def main() -> int:
+    try:   # debugging aid: `kill -USR1 <pid>` dumps the Python stack of a (worker) process to stderr
+        import faulthandler
+        import signal
+        faulthandler.register(signal.SIGUSR1, all_threads=True)
+    except Exception:
+        pass
     ap = argparse.ArgumentParser()
     ap.add_argument('prop')
     ap.add_argument('--tier', default=os.environ.get('VERIF_TIER', 'quick'), choices=['quick', 'thorough'])
